@@ -96,20 +96,44 @@ def run(res, tier, only_case=None):
     # ---- (2) API call sequences on complete files
     nfiles = 10 if tier == "quick" else 60
     base = filegen.nocomp_files(rng, nfiles) + filegen.zstd_files(rng, nfiles, wd, "plain")
-    cases = []
+    def run_batch(cases):
+        """run one batch of (tag, line) cases and judge it (batches keep the memory bounded in the thorough tier)"""
+        if not cases:
+            return
+        alines = [c[1] for c in cases]
+        ao, aerrs = vlib.run_cases_resilient(api, alines, wd, "api", env=env, timeout=3000)
+        errmap = dict(aerrs)
+        for k, ((tag, line), o) in enumerate(zip(cases, ao)):
+            res.evaluations += 1
+            res.nontrivial.add(vlib.hashlib.sha256(line.encode()).hexdigest()[:16])
+            bad = o == "MEMFAULT" or o.endswith("HANG") or o.startswith("DIED")
+            res.count("api:" + tag.split("#")[0].split("@")[0] + (":fault" if bad else ""))
+            if bad:
+                ops = line.split()[-1]
+                res.violation("oracle", "c03:api:%s:%s:%s" % (tag, ops, vlib.hashlib.sha256(line.encode()).hexdigest()[:12]),
+                              "API calls [%s] on a %s file end in %s: %s" % (ops, tag, o[-40:], vlib.san_summary(errmap.get(k, ""))),
+                              {"line": line, "tag": tag, "impl": o})
+        if len(res.samples) < 5:
+            res.sample({"tag": cases[0][0], "ops": cases[0][1].split()[-1], "impl": ao[0][:200]})
+
     for f, data, _ in base:
+        cases = []
         variants = [("valid", f)] + mutants_of(rng, f, tier)
         if tier == "quick":
             variants = variants[:1] + rng.sample(variants[1:], min(len(variants) - 1, 14))
+        elif len(f) > 150000:
+            variants = variants[:1] + rng.sample(variants[1:], min(len(variants) - 1, 25))
         for tag, g in variants:
-            for ops in (rng.sample(OPS, 3) if tier == "quick" else OPS):
+            for ops in (rng.sample(OPS, 3) if tier == "quick" else (OPS if len(f) < 150000 else rng.sample(OPS, 5))):
                 if "k" in ops and tag.startswith("clen=2^"):
                     # copying into a target whose index claims a 2^40-byte chunk legitimately creates a
                     # terabyte-sized sparse file; validating that afterwards is slow, not a hang
                     continue
                 src = f if ("k" in ops or "h" in ops) else None
                 cases.append((tag, "F %s %s %s" % (vlib.hexs(g), vlib.hexs(src) if src else "-", ops)))
+        run_batch(cases)
     # delta sources whose chunk checksum type (digest length) differs from the target's
+    cases = []
     for _ in range(3 if tier == "quick" else 12):
         chunks = [rng.rbytes(rng.choice([10, 300, 5000])) for _ in range(rng.randrange(1, 5))]
         for tc, sc in ((3, 2), (3, 1), (0, 2), (1, 2), (2, 3), (3, 0)):
@@ -118,22 +142,7 @@ def run(res, tier, only_case=None):
             hdr_len = len(tgt) - sum(len(c) for c in chunks)
             for ops in ("k,v,r4096", "h,k,m0"):
                 cases.append(("src-cht%d-tgt-cht%d" % (sc, tc), "F %s %s %s" % (vlib.hexs(tgt[:hdr_len] + bytes(len(tgt) - hdr_len)), vlib.hexs(srcf), ops)))
-    alines = [c[1] for c in cases]
-    ao, aerrs = vlib.run_cases_resilient(api, alines, wd, "api", env=env, timeout=3000)
-    errmap = dict(aerrs)
-    for k, ((tag, line), o) in enumerate(zip(cases, ao)):
-        res.evaluations += 1
-        res.nontrivial.add(line[:200] + vlib.hashlib.sha256(line.encode()).hexdigest()[:12])
-        bad = o == "MEMFAULT" or o.endswith("HANG") or o.startswith("DIED")
-        res.count("api:" + tag.split("#")[0].split("@")[0] + (":fault" if bad else ""))
-        if bad:
-            ops = line.split()[-1]
-            res.violation("oracle", "c03:api:%s:%s:%s" % (tag, ops, vlib.hashlib.sha256(line.encode()).hexdigest()[:12]),
-                          "API calls [%s] on a %s file end in %s: %s" % (ops, tag, o[-40:], vlib.san_summary(errmap.get(k, ""))),
-                          {"line": line, "tag": tag, "impl": o})
-    if cases:
-        res.sample({"tag": cases[0][0], "ops": cases[0][1].split()[-1], "impl": ao[0]})
-        res.sample({"tag": cases[-1][0], "ops": cases[-1][1].split()[-1], "impl": ao[-1]})
+    run_batch(cases)
     # ---- (3) command line tools
     tools = {t: vlib.ensure_tool(t, "asan") for t in ("unzck", "zck_read_header", "zck_delta_size", "zck_gen_zdict")}
     sample = []
